@@ -38,6 +38,7 @@ func c18Docs() []string {
 		"2022-06-15\n    1h #ort=zürich #名=値\n    2h #ort=\"köln süd\" #名='値 2'\n    3h #ort=a\n\n2022-06-14\n#ort=zürich\n    30m #ß=ẞ\n",
 		"2022-06-15\n",
 		"2022-06-15 (8h!)\n",
+		"2022-06-15\ntrailing blanks  \n    1h work  \n    10h30m  \n    8:00 - 9:00 \t\n        continued \n",
 	)
 	for _, d := range docs {
 		if r := sm.Parse(d); r.Verdict != sm.Valid {
@@ -229,7 +230,7 @@ const c18Chunk = 1500
 
 var c18BulkNames = []string{"ev", "tagtab"}
 
-var c18TagMenu = []string{"#a", "#日本語", "#ünï=\"wert 1\"", "#x='q\"z'", "#a=1", "#𝒳", "#ＴＡＧ=値", "#long_tag-name=long-value_123", "#é́", "#b=\"\""}
+var c18TagMenu = []string{"#a", "#日本語", "#ünï=\"wert 1\"", "#x='q\"z'", "#a=1", "#𝒳", "#ＴＡＧ=値", "#long_tag-name=long-value_123", "#é́", "#b=\"\"", "#t  ", "#u\t"} // (the last two: a summary that ends in blanks when the tag comes last)
 
 func c18TagSeqs() int { return 1 + len(c18TagMenu) + len(c18TagMenu)*len(c18TagMenu) }
 
